@@ -63,7 +63,7 @@ Definition sym_run (inp : list Z) : list Z :=
   let '(nb, l) := pop1 l in let '(bals, l) := parse_pairs (Z.to_nat nb) l in
   let blk := mkBlock 0 31337 0 0 (2 ^ 63 - 1) 1 1 in
   let se := mkSEnv this code (TVar VCaller) (TVar VOrigin) (TVar VValue) (map data_item data)
-                   (negb (static =? 0)) 1 blk in
+                   (negb (static =? 0)) 1 blk [] in
   let rho := fun v =>
     match v with
     | VCaller => caller | VOrigin => origin | VValue => value
